@@ -43,6 +43,9 @@ Iota(n) == IotaRec(n, << >>)                      \* <<0, 1, ..., n>>
 \* ambig = sequence of <<symbol, equivalents>> in call order (the LAST call for a symbol
 \* counts, also when matchers were already built from the builder in between); the symbol
 \* always matches itself. wild = text symbols that match every pattern position.
+\* The relation is NOT transitive and not symmetric: with X -> {Y} and Y -> {Z} a pattern X
+\* matches the text symbols X and Y only, never Z; with X -> {Y} alone a pattern Y does not
+\* match a text X. Only the entry of the pattern symbol itself is consulted.
 AmbigOf(ambig, s) ==
     LET I == {x \in 1..Len(ambig) : ambig[x][1] = s}
     IN  IF I = {} THEN {}
@@ -64,10 +67,15 @@ MkCost(p, cost) ==
     [kind |-> "cost", m |-> Len(p), p |-> p, pm |-> << >>, wild |-> {}, cost |-> cost]
 MkPlain(p) == MkCost(p, << >>)
 
+\* A cost-table entry -1 stands for an "infinite" cost (u32::MAX, u32::MAX - 1, 2^31, ...: every
+\* value >= 2^30 is logged as -1, TLC's integers are 32-bit). An alignment through such an edge is
+\* never within any threshold the drivers use and never cheaper than the all-insertion alignment
+\* (D[i][j] <= i), so any value above every pattern length serves; additions stay far from 2^31.
+InfCost == 1000000
 Sub(ctx, i, c) ==
     IF ctx.kind = "eq" THEN (IF c \in ctx.pm[i] \/ c \in ctx.wild THEN 0 ELSE 1)
     ELSE IF ctx.cost = << >> THEN (IF ctx.p[i] = c THEN 0 ELSE 1)
-    ELSE ctx.cost[ctx.p[i] + 1][c + 1]
+    ELSE LET v == ctx.cost[ctx.p[i] + 1][c + 1] IN IF v < 0 THEN InfCost ELSE v
 
 \* ------------------------------------------------------------- edit matrix
 \* A column is the sequence <<D[0][j], ..., D[m][j]>> (row r at index r+1).
